@@ -86,6 +86,11 @@ class C09Stream(TaskMsgStream):
 
 STREAMS = [C09Stream()]
 
+# scheduler-level stream (pool automaton Model/Pool.v + real scheduler runs with retries, failures,
+# submit failures, duplicated / re-ordered messages); added by the framework owner
+from vp.sched.stream import SchedStream  # noqa: E402
+STREAMS.append(SchedStream('C09', name="sched-retry", feat={'retries': True, 'abs': True}, n_quick=24, n_thorough=500))
+
 META = {
     "level_text": (
         "Coq theorems over Model/TaskMsg.v for all tasks, messages, flags and submit numbers (no bound): every status "
